@@ -2,6 +2,10 @@
 
 T-gen : Gen/Tables.v regenerated from PandoraMachine._transitions_run/_check; obligations
         check_tbl_wf / run_tbl_wf re-proved by vm_compute on every run.
+        Gen/MachineFlow.v regenerated (ast) from PandoraMachine.check_conf / run / run_prepare / run_exit /
+        is_not_last_scale and pandora.run: the control flow as ordered statement skeletons; obligations
+        check_flow_wf / run_flow_wf re-proved by vm_compute on every run; the interpreter of the skeletons is
+        proved equal to the hand-written model for every well-formed skeleton (C01_gen_*).
 T-corr: the extracted model (check_conf / run / histories) against the real PandoraMachine:
         exhaustive kind sequences (check phase), random suffixed / malformed sequences,
         histories of check/run calls with real runs on small images (1-3 scales), histories that
@@ -14,7 +18,7 @@ import numpy as np
 
 from harness import pandora_util as pu
 
-GEN = ["gen_tables"]
+GEN = ["gen_tables", "gen_machine_flow"]
 EXTRACT_FILES = ["X01"]
 DRIVERS = ["x01"]
 RULE = ("check phase: every kind sequence up to length L (exhaustive) + random suffixed/malformed sequences; "
@@ -31,7 +35,11 @@ ASSUMES = [
     "the left/right flag of a trace entry is read from machine.right_disp_map when the callback starts; the effect "
     "of the right call itself is checked by C08",
 ]
-TRUSTED = ["Gen/Tables.v produced by translator/gen_tables.py from the imported class attributes"]
+TRUSTED = ["Gen/Tables.v produced by translator/gen_tables.py from the imported class attributes",
+           "Gen/MachineFlow.v produced by translator/gen_machine_flow.py from the ast of check_conf / run / run_prepare / "
+           "run_exit / is_not_last_scale / pandora.run (transliteration, fail closed); the meaning given to the "
+           "skeletons by Lib/MachineFlow.v (Python exceptions, break, return, calls; run_prepare projected on "
+           "num_scales, current_scale, right_disp_map and the transitions)"]
 
 LETTER = {"matching_cost": "M", "aggregation": "A", "semantic_segmentation": "S", "optimization": "O",
           "cost_volume_confidence": "C", "disparity": "D", "filter": "F", "refinement": "R", "validation": "V",
@@ -576,4 +584,9 @@ def run(ctx):
         run_symmetry(ctx, pandora, 12 if quick else 120)
     ctx.stats["mixed_histories"] = len(mixed)
     ctx.gen_obligations = ["check_tbl_wf Gen.Tables.check_table = true (vm_compute)",
-                           "run_tbl_wf Gen.Tables.run_table = true (vm_compute)"]
+                           "run_tbl_wf Gen.Tables.run_table = true (vm_compute)",
+                           "check_flow_wf Gen.MachineFlow.flows = true (vm_compute): the regenerated statement "
+                           "skeleton of PandoraMachine.check_conf is the control flow Model.Machine.check_conf implements",
+                           "run_flow_wf Gen.MachineFlow.flows = true (vm_compute): the regenerated skeletons of "
+                           "PandoraMachine.run / run_prepare / run_exit / is_not_last_scale and pandora.run are the "
+                           "control flow Model.Machine.run implements"]
